@@ -2,6 +2,7 @@ package rules
 
 import (
 	"fmt"
+	"go/constant"
 	"go/token"
 	"go/types"
 	"os"
@@ -70,6 +71,33 @@ func isSumWith(x *absint.Exec, v absint.Value, loc string, d func(absint.Value) 
 func ruleMergeByName(c *core.Ctx, rule string, fn *ssa.Function, withMult bool) {
 	fname := core.FuncName(fn)
 	pos := c.P.Pos(fn.Pos())
+	// a function that has no loop of its own and hands its list to Elements.SumMerge with the multiplier 1 merges by
+	// name exactly as SumMerge does (x*1 is exact): SumMerge is then checked in its place
+	if sm := c.P.LookupMethod(core.LibPath, "Elements", "SumMerge"); sm != nil && sm != fn {
+		loops := false
+		for _, b := range fn.Blocks {
+			if isLoopHead(b) {
+				loops = true
+			}
+		}
+		if !loops {
+			for _, b := range fn.Blocks {
+				for _, in := range b.Instrs {
+					ci, ok := in.(ssa.CallInstruction)
+					if !ok || ci.Common().StaticCallee() != sm || len(ci.Common().Args) != 3 {
+						continue
+					}
+					k, isC := ci.Common().Args[2].(*ssa.Const)
+					_, fromParam := ci.Common().Args[1].(*ssa.Parameter)
+					if isC && k.Value != nil && constant.Compare(k.Value, token.EQL, constant.MakeInt64(1)) && fromParam {
+						c.Discharge(rule, fname, "exists∈{T,F}", pos, "delegates to Elements.SumMerge(list, 1), which is checked in its place")
+						ruleMergeByName(c, rule, sm, true)
+						return
+					}
+				}
+			}
+		}
+	}
 	x := newExec(c)
 	var bad []string
 	seen := map[string]bool{}
